@@ -93,6 +93,47 @@ NEEDS = {
     "C19_m4": "a disposal taking less than 5e-14 of a lot (sold percentage equal to zero at 13 decimals): outside the integer lattice of the specification (amount ratios of 1e14)",
     "C20_m3": "a DONATE followed in the same asset-year by an income acquisition or a fee-bearing transfer (donation text carried over)",
     "C20_m4": "the first transaction of year Y+1 earlier, as an instant, than the first of year Y (mixed UTC offsets at year end)",
+    # round 3
+    "C01_m5": "HIFO/LOFO/LIFO, two assets in one run whose lots share rows with a different price (or time) ordering (sort-key cache keyed by row)",
+    "C01_m6": "two lots at exactly the same instant, the one with a crypto fee on the lower row, a disposal that should reach it (lot queued behind its sibling)",
+    "C02_m5": "a FEE-typed out-transaction or the artificial fee disposal of a crypto-fee acquisition (twice the fee taken from lots)",
+    "C02_m6": "a lot acquired at the instant of a disposal whose id sorts above the disposal's (crypto-fee purchase as first lot, or OUT table above IN table)",
+    "C03_m5": "the last taxable event of an asset is a disposal that exactly finishes its lot (entry added after the next-event fetch)",
+    "C03_m6": "a from-date and a fee-paying transfer before it",
+    "C04_m5": "an earn-typed acquisition with a fee or a supplied value with fee (taxed without the fee)",
+    "C04_m6": "a spreadsheet cell with more than 11 significant digits (only through the .ods path)",
+    "C05_m5": "one disposal matched to lots on both sides of the threshold (yearly summary classifies it by its first fraction)",
+    "C05_m6": "the generic plugin with LONG_TERM_CAPITAL_GAINS=0 and an income event (income long-term)",
+    "C06_m5": "a to-date and a taxable event on that very day (iterator bound exclusive, summary inclusive)",
+    "C06_m6": "IN staking and OUT staking of one asset in one year, same term (two accumulators collide in a set)",
+    "C07_m5": "a FEE-typed out-transaction (debited twice from the account)",
+    "C07_m6": "a from-date and a transfer before it (transfers before the from-date vanish from the balances)",
+    "C08_m5": "a transfer between two holders (debited from the receiving holder's account)",
+    "C08_m6": "the optional crypto_out_with_fee supplied with a value different from amount + fee (inconsistent input: outside the alphabet of the specification)",
+    "C09_m5": "a to-date and a transfer after it (transfer view loses its upper bound)",
+    "C09_m6": "a to-date and a transaction on that very day (balances stop one day early)",
+    "C10_m5": "a to-date and a transfer after it",
+    "C10_m6": "a to-date coinciding with the date of a transaction (balances exclude the to-date itself)",
+    "C11_m5": "a from-date and a disposal before it (report filter applied to the OUT set at parse time)",
+    "C11_m6": "a crypto-fee acquisition with a sub-second timestamp (artificial fee disposal loses the microseconds)",
+    "C12_m5": "-a naming an asset that is not configured (or in the wrong case)",
+    "C12_m6": "a fault in the sheet of an asset that is not processed first (reports of the earlier assets left behind)",
+    "C13_m5": "a to-date and a lot with a further fraction after it (k/n labels shared with the unfiltered set)",
+    "C13_m6": "a transfer between two holders (credited to the destination exchange under the sending holder)",
+    "C14_m5": "a to-date and a taxable event on that very day",
+    "C14_m6": "an earn-typed acquisition with a fee",
+    "C15_m5": "a FEE-typed out-transaction and holdings left (twice the fee taken from lots, once from balances)",
+    "C15_m6": "a to-date, non-UTC offsets, a transaction between local and UTC midnight at the to-date (balances cut by UTC date)",
+    "C16_m5": "rp2_us and an out-transaction of type Lost (sheet that the template lacks)",
+    "C16_m6": "a to-date earlier than the first acquisition of some configured asset (0/0 average price)",
+    "C17_m5": "three or more crypto-fee purchases in one run: artificial ids counting upwards collide with rows of another asset processed in the same run",
+    "C17_m6": "two or more assets processed together under different hash seeds (asset order unsorted)",
+    "C18_m5": "a config file saved with a UTF-8 byte order mark (rewritten in place)",
+    "C18_m6": "a regular file named log in the working directory (log file written to the working directory instead)",
+    "C19_m5": "a generation language that translates the sheet name pattern (es, kl): Summary links name a sheet that does not exist",
+    "C19_m6": "two assets where the last transaction looked up for one and the first taxable event of the next share a row number (one-entry memo survives between assets)",
+    "C20_m5": "the optional fiat_out_no_fee supplied with a value different from amount x price (sold yen taken from it)",
+    "C20_m6": "-g kl and an asset with two or more years (previous sheet named without the localised pattern)",
 }
 
 
